@@ -1,7 +1,8 @@
 // SPDX-License-Identifier: BSL-1.1 OR Apache-2.0
 use std::{
-    collections::HashSet,
-    sync::Arc,
+    collections::{hash_map::DefaultHasher, HashSet},
+    hash::{Hash, Hasher},
+    sync::{Arc, Mutex, MutexGuard, PoisonError},
     time::{SystemTime, UNIX_EPOCH},
 };
 
@@ -83,6 +84,9 @@ impl GarbageCollector {
         let chunk_keys = self.store.scan("_blob:chunk:");
 
         for chunk_key in chunk_keys.into_iter().take(self.config.batch_size) {
+            // A writer that finds the chunk bumps its count under the same lock, so the
+            // count cannot leave zero between the test and the delete.
+            let _guard = lock_chunk(&chunk_key);
             if let Ok(tensor) = self.store.get(&chunk_key) {
                 let refs = get_int(&tensor, "_refs").unwrap_or(0);
                 let created =
@@ -167,12 +171,34 @@ impl GarbageCollector {
     }
 }
 
+const CHUNK_LOCK_STRIPES: usize = 64;
+
+#[allow(clippy::declare_interior_mutable_const)]
+const CHUNK_LOCK_INIT: Mutex<()> = Mutex::new(());
+
+static CHUNK_LOCKS: [Mutex<()>; CHUNK_LOCK_STRIPES] = [CHUNK_LOCK_INIT; CHUNK_LOCK_STRIPES];
+
+/// Lock that serializes every read-modify-write of one chunk record: reference count
+/// updates, the exists-then-store of a new chunk, and the collector's test-then-delete.
+/// Writers, deleters and the collector reach the same records through clones of the
+/// `TensorStore`, so the lock is process-wide, striped by chunk key.
+pub(crate) fn lock_chunk(chunk_key: &str) -> MutexGuard<'static, ()> {
+    let mut hasher = DefaultHasher::new();
+    chunk_key.hash(&mut hasher);
+    #[allow(clippy::cast_possible_truncation)]
+    let stripe = (hasher.finish() as usize) % CHUNK_LOCK_STRIPES;
+    CHUNK_LOCKS[stripe]
+        .lock()
+        .unwrap_or_else(PoisonError::into_inner)
+}
+
 /// Decrement chunk reference count. Used when deleting artifacts.
 ///
 /// # Errors
 ///
 /// Returns an error if the store operation fails.
 pub fn decrement_chunk_refs(store: &TensorStore, chunk_key: &str) -> Result<()> {
+    let _guard = lock_chunk(chunk_key);
     if let Ok(mut tensor) = store.get(chunk_key) {
         let refs = get_int(&tensor, "_refs").unwrap_or(1);
         let new_refs = (refs - 1).max(0);
@@ -186,6 +212,9 @@ pub fn decrement_chunk_refs(store: &TensorStore, chunk_key: &str) -> Result<()> 
 }
 
 /// Increment chunk reference count. Used for deduplication.
+///
+/// The caller holds [`lock_chunk`] for the key: the writer takes it before testing
+/// whether the chunk exists and keeps it over this update.
 ///
 /// # Errors
 ///
